@@ -269,6 +269,16 @@ func (c *counter) Add(k string, n int) {
 	c.mu.Unlock()
 }
 
+func (c *counter) Total() int {
+	c.mu.Lock()
+	defer c.mu.Unlock()
+	n := 0
+	for _, v := range c.m {
+		n += v
+	}
+	return n
+}
+
 func (c *counter) Get(k string) int {
 	c.mu.Lock()
 	defer c.mu.Unlock()
